@@ -6,6 +6,8 @@ import NumbersModel.Drv.Csv
 import NumbersModel.Drv.CellRecord
 import NumbersModel.Drv.Storage
 import NumbersModel.Drv.StringTable
+import NumbersModel.Drv.Iwa
+import NumbersModel.Drv.Loader
 
 open NumbersModel.Drv
 
@@ -21,6 +23,8 @@ def dispatch (line : String) : String :=
     | "d128" :: rest => handleD128 rest
     | "row" :: rest => handleRow rest
     | "strtab" :: rest => handleStrTab rest
+    | "iwa" :: rest => handleIwa rest
+    | "loader" :: rest => handleLoader rest
     | _ => none
   match r with
   | some s => s
